@@ -6,9 +6,14 @@ import Femio.Model.UcdFem
 ```
 fem  := nodes: list(nat list(str))  blocks: list(nat list(nat list(nat)))  nodalVars: list(var)  elemVars: list(var)
 var  := str nat ids: list(nat) rows: list(list(str))    -- name, width, the variable's own ids and rows
-text := list(str)                                       -- one escaped token per line
-c04.write <alignById 0|1> <fem>  -> ok <text>
-c04.read <text>   -> ok 0 | ok 1 <nodes> <blocks> <nodalVars> <rows: list(nat list(str))> <elemVars> <rows>
+text := str                                             -- the whole file: characters, lines terminated by newline
+tab  := str nat list(nat) list(list(str))               -- one variable read back: name, width, ids, rows
+c04.write <alignById 0|1> <fem>  -> ok <hyp 0|1> <text>
+      -- text = `fileText (toMesh cfg fem)`; hyp = the Boolean hypotheses of `C04_own_order_chars` /
+      -- `C04_roundtrip_chars` (`femOKB fem && meshOKB (toMesh cfg fem)`) evaluated on this input
+c04.read <text>   -> ok 0 | ok 1 <nodes> <blocks> <nodal tables: list(tab)> <elemental tables: list(tab)>
+      -- `readText` (lines between newlines, whitespace lexer, positional reader) then `readTables`
+c04.ws            -> ok list(nat)                       -- the lexer's whitespace code points (`Femio.Text.wsCodes`)
 ``` -/
 namespace Femio.C04
 open Femio.Proto Ucd Femio.Text
@@ -27,19 +32,23 @@ def femP : P (Fem Str) := do
 
 def showVar (x : Var) : String := s!"{escape x.name} {x.width}"
 def showIdRow (r : Nat × List Str) : String := s!"{r.1} {showList escape r.2}"
+def showTab (t : VarTab Str) : String :=
+  s!"{escape t.name} {t.width} {showList toString t.ids} {showList (showList escape) t.rows}"
 def showElem (e : Elem) : String := s!"{e.id} {showList toString e.conn}"
 def showBlock (b : Nat × List Elem) : String := s!"{b.1} {showList showElem b.2}"
 
 def handle : List String → Option String
   | "c04.write" :: rest => do
     let (al, f) ← run (do let al ← bool; let f ← femP; pure (al, f)) rest
-    some ("ok " ++ showList (fun l => escape (lineText l)) (write (toMesh ⟨al⟩ f)))
+    let m := toMesh ⟨al⟩ f
+    some (s!"ok {showBool (femOKB f && meshOKB m)} {escape (fileText m)}")
   | "c04.read" :: rest => do
-    let text ← run (listOf str) rest
-    match Ucd.read (text.map lexLine) with
+    let text ← run str rest
+    match readText text with
     | none => some "ok 0"
-    | some r => some (s!"ok 1 {showList showIdRow r.nodes} {showList showBlock r.blocks} {showList showVar r.nodalVars} "
-        ++ s!"{showList showIdRow r.nodalRows} {showList showVar r.elemVars} {showList showIdRow r.elemRows}")
+    | some r => some (s!"ok 1 {showList showIdRow r.nodes} {showList showBlock r.blocks} "
+        ++ s!"{showList showTab (readTables r.nodalVars r.nodalRows)} {showList showTab (readTables r.elemVars r.elemRows)}")
+  | ["c04.ws"] => some ("ok " ++ showList toString wsCodes)
   | _ => none
 
 end Femio.C04
